@@ -537,7 +537,8 @@ def c08_term(case, obs):
                 _, T, passed, val, sp, maxlen, _ = ev
                 evs.append(f"K {cZ(T - b)} {cZ(sp or 0)} {cZ(maxlen)} {clist(passed, item)} "
                            f"{cbool(val is not None)} {copt(sp)} {cZ(maxlen)}")
-        conf = f"(mkC {cZ(case['period'])} {cZ(case['age'][0])} {cZ(case['age'][1])} {cZ(case['init_len'])})"
+        conf = (f"(mkC {cZ(case['period'])} {cZ(case['age'][0])} {cZ(case['age'][1])} {cZ(case['init_len'])} "
+                f"{cZ(case['max_len'])})")
         parts.append(f"(mk08 {cZ(b)} {conf} [{'; '.join(evs)}])")
     if not parts:
         return None
